@@ -170,9 +170,14 @@ class C14(Check):
                         self.eval_tx(raw, ("m3", tuple(a), tuple(b), tuple(c)), stats, vs, pairs,
                                      through=(len(a) + len(b) + len(c)) % 2 == 0 or self.thorough)
         elif k == "shapes":
+            for ver in (0x20, 0x0a, 0x0d0a, 0x20202020):
+                for idxs in ([0, 3, 15], [15]):
+                    raw = self.tx_of([self.script_of(idxs)], 1, ver, 0x0a000000)
+                    self.eval_tx(raw, ("shape-ws", ver, tuple(idxs)), stats, vs, pairs, through=True)
+                    self.eval_tx(b"\x20" + raw, ("lead-ws", ver, tuple(idxs)), stats, vs, pairs, through=True)
             for nout in (0, 1, 2):
                 for ver in (1, 2):
-                    for lt in (0, 1, 0xffffffff):
+                    for lt in (0, 1, 0xffffffff, 0x20000000, 0x0a000000, 0x0d000000, 0x09000020):
                         for idxs in ([0, 3, 15], [15], [0, 0, 0, 15], [5, 14]):
                             raw = self.tx_of([self.script_of(idxs)], nout, ver, lt)
                             self.eval_tx(raw, ("shape", nout, ver, lt, tuple(idxs)), stats, vs,
@@ -184,7 +189,8 @@ class C14(Check):
                              through=True)
             tail = Rng("c14-tail").nz_bytes(3)
             for extra in (1, 2, 3):
-                for tb in (tail[:extra], b"\x00" * extra):
+                # (bytes a text-minded clean-up would take for blanks included)
+                for tb in (tail[:extra], b"\x00" * extra, b"\x0a\x20\x0d"[:extra], b"\x20" * extra):
                     self.eval_tx(base + tb, ("trail", case["base"], extra), stats, vs, pairs,
                                  through=True)
         elif k == "empty":
@@ -271,9 +277,27 @@ class C14(Check):
             # must still be answered without contacting the device (not even to reconnect)
             proto.report_comm_issue()
         base_log = len(w.log)
-        req = reqs.sign_request(reqs.PATHS[0], raw.hex(), 0, "legacy", self.receipt, self.proof)
         if len(raw) == 0:
             return   # empty "tx" is a request-shape defect (C02), not a transaction
+        self.through_mode(raw, desc, "legacy", proto, dev, w, base_log, ref_err, shape, stats, vs,
+                          canon if ref_err is None else None, ok if ref_err is None else None)
+        # the same transaction asked for in the segwit sub-format (its own extra fields): the
+        # transformation is the same
+        dev = PowHsm(seed=b"c14")
+        w = World(dev)
+        proto = harness.make_protocol(w)
+        if ref_err is not None:
+            proto.report_comm_issue()
+        self.through_mode(raw, desc, "segwit", proto, dev, w, len(w.log), ref_err, shape, stats, vs,
+                          canon if ref_err is None else None, ok if ref_err is None else None)
+
+    def through_mode(self, raw, desc, mode, proto, dev, w, base_log, ref_err, shape, stats, vs, canon, ok):
+        if mode == "legacy":
+            req = reqs.sign_request(reqs.PATHS[0], raw.hex(), 0, "legacy", self.receipt, self.proof)
+        else:
+            req = reqs.sign_request(reqs.PATHS[0], raw.hex(), 0, "segwit", self.receipt, self.proof,
+                                    witness_script="51" * 30, outpoint_value=12345)
+            desc = tuple(desc) + ("segwit",)
         reply, exc = harness.handle_request(proto, req)
         contacted = len(w.log) > base_log
         code = reply.get("errorcode") if isinstance(reply, dict) else None
@@ -287,6 +311,17 @@ class C14(Check):
                           {"apdus": [a.hex() for a in w.apdus()][:4]}, {"apdus": []})
             return
         held = [h for h in dev.held if h[0] == "sign-auth"]
+        refused = [e for e in w.log if e[0] == "x" and isinstance(e[3], tuple) and e[3][:1] == ("sw",)]
+        if exc is None and code in (-101, -102, -103) and refused and mode == "segwit" or \
+                exc is None and code in (-101, -102, -103) and refused and desc[0] in ("shape-ws", "lead-ws"):
+            # the conforming device has its own opinion of this transaction (version, script form of
+            # the segwit sub-format): what reached it until then must still be the image
+            got = b"".join(bytes(e[2][3:]) for e in w.log if e[0] == "x" and e[2][1] == 0x02 and e[2][2] == 0x02)
+            part = got[7:7 + len(canon)]
+            stats.dont_care += 1
+            if part and part != canon[:len(part)] and not ok(part + canon[len(part):]):
+                self.viol(vs, "relay-image", desc[0], raw, desc, {"device_received": part}, {"prefix_of": canon})
+            return
         if exc is not None or code != 0 or len(held) != 1:
             self.viol(vs, "relay-failed", desc[0], raw, desc,
                       {"reply": reply, "exc": exc, "log": [repr(e)[:120] for e in w.log[-3:]]},
